@@ -28,15 +28,19 @@ Flatten(ms) == IF ms = <<>> THEN <<>> ELSE Head(ms) \o <<CR, LF>> \o Flatten(Tai
 \* the reader as a function of the bytes that arrive and of whether the peer
 \* then closes: [got |-> messages returned, final |-> "error" | "blocked"]
 \* ("blocked": waiting for bytes of a peer that is still connected)
+\* (one step per MESSAGE, not per byte: lines of any length - the protocol puts
+\* no bound on them - are evaluated without deep recursion)
 RECURSIVE Read(_, _, _, _)
 Read(bytes, closed, buf, got) ==
-  IF bytes = <<>>
-  THEN [got |-> got, final |-> IF closed THEN "error" ELSE "blocked"]
-  ELSE IF Head(bytes) # CR THEN Read(Tail(bytes), closed, Append(buf, Head(bytes)), got)
-  ELSE IF Len(bytes) = 1
-       THEN [got |-> got, final |-> IF closed THEN "error" ELSE "blocked"]
-  ELSE IF bytes[2] = LF THEN Read(Tail(Tail(bytes)), closed, <<>>, Append(got, buf))
-  ELSE [got |-> got, final |-> "error"]          \* CR not followed by LF
+  LET crs == {k \in 1..Len(bytes) : bytes[k] = CR}
+      stop == [got |-> got, final |-> IF closed THEN "error" ELSE "blocked"]
+  IN IF crs = {} THEN stop
+     ELSE LET k == CHOOSE x \in crs : \A y \in crs : x <= y IN
+          IF k = Len(bytes) THEN stop
+          ELSE IF bytes[k + 1] = LF
+               THEN Read(SubSeq(bytes, k + 2, Len(bytes)), closed, <<>>,
+                         Append(got, buf \o SubSeq(bytes, 1, k - 1)))
+               ELSE [got |-> got, final |-> "error"]          \* CR not followed by LF
 ReadAll(bytes, closed) == Read(bytes, closed, <<>>, <<>>)
 
 RECURSIVE Compositions(_)
